@@ -208,7 +208,7 @@ impl C19 {
             out.violation(P, "claims_untouched", "unbond requests / history changed during UpdateGlobalIndex".into());
         }
         // 8. value conservation at the oracle price (in kusd): withdrawn + prior holdings = keeper + reward + rebond, within rounding
-        let price = c.cfg.price.atomics().u128();
+        let price = c.w_pre.price.atomics().u128();
         let mut in_usei = pre.bal(DISPATCHER, USEI);
         let mut in_kusd = pre.bal(DISPATCHER, KUSD);
         let mut in_other = 0u128;
@@ -239,7 +239,7 @@ impl C19 {
             out.violation(
                 P,
                 "value_conserved",
-                format!("value in ({} usei, {} kusd, {} other) vs out ({} usei, {} kusd) at price {}: differ by {} e-18 kusd (tolerance {})", in_usei, in_kusd, in_other, held_usei, held_kusd, c.cfg.price, diff, tol),
+                format!("value in ({} usei, {} kusd, {} other) vs out ({} usei, {} kusd) at price {}: differ by {} e-18 kusd (tolerance {})", in_usei, in_kusd, in_other, held_usei, held_kusd, c.w_pre.price, diff, tol),
             );
         }
         out.distinct(&(
